@@ -562,12 +562,12 @@ def verify_run(ctx, net, case, calls, v_start, result, k, what):
     return None
 
 
-def model_replay(ctx, net, case, steps, v_start, res2, k, overwrite, same_dtype, v_after2):
+def model_replay(ctx, net, case, steps, v_start, res2, k, overwrite, same_dtype, v_after2, max_rows=3):
     """Replay the (canonically ordered) recorded draws through the model's deterministic sampler and storage model."""
     m = ctx.get_model()
     fn = "c05_p_gibbs" if net.purif else "c05_b_gibbs"
     keys = (("ph", "h"), ("pa", "a"), ("pv", "v")) if net.purif else (("ph", "h"), ("pv", "v"))
-    for i in range(min(v_start.shape[0], 3)):
+    for i in range(min(v_start.shape[0], max_rows)):
         draws = [s[d][i].tolist() for s in steps for _, d in keys]
         probs = [s[q][i] for s in steps for q, _ in keys]
         fin, reqs = m.call(fn, *net.params, k, v_start[i].tolist(), draws)
@@ -651,7 +651,8 @@ def one_run(ctx, net, k, overwrite, v0, via, seed, form="2d", outer=None):
                             bool(np.array_equal(tnp(outer[0])[mask], tnp(pool_before)[mask])), case,
                             {"pool shape": list(outer[0].shape)})
     if steps is not None and (good or non_double):
-        model_replay(ctx, net, case, steps, start2, res2, k, overwrite, not non_double, after2)
+        model_replay(ctx, net, case, steps, start2, res2, k, overwrite, not non_double, after2,
+                     max_rows=3 if outer is None else 2)
     return res
 
 
@@ -770,7 +771,7 @@ def layout_runs(ctx, net, full):
     rng = ctx.rng
     names = [n for n in LAYOUTS if n != "contiguous"]
     if not full:
-        names = list(rng.choice(names, size=5, replace=False))
+        names = list(rng.choice(names, size=4, replace=False))
         for must in ("col-block0", "transposed"):
             if must not in names and rng.random() < 0.5:
                 names.append(must)
@@ -794,7 +795,7 @@ def layout_runs(ctx, net, full):
                 continue
             one_run(ctx, net, k, overwrite, v0, via, ctx.torch_seed(), form=name, outer=(pool, mask))
     # every accepted dtype on a dense start state (and on one view), overwrite on and off
-    dts = DTYPES if full else tuple(rng.choice(DTYPES, size=3, replace=False))
+    dts = DTYPES if full else tuple(rng.choice(DTYPES, size=2, replace=False))
     for i, dtype in enumerate(dts):
         for overwrite in (False, True):
             name = "contiguous" if (i + int(overwrite)) % 2 == 0 else ("col-block", "transposed", "row-stride")[i % 3]
